@@ -188,7 +188,7 @@ impl<'a> SimdOp for SimdTopK<'a> {
             .collect();
         topk.sort_by(|a, b| compare_gt(a.1, b.1));
 
-        if k == 0 || logits.len() == k {
+        if k == 0 || logits.len() <= k {
             return topk;
         }
 
